@@ -218,7 +218,7 @@ fn field_product(run: &Run) {
     run.note("field_product", json!({"placements": ps.len(), "sides": sides.len(), "castling": castles.len(), "ep": eps.len(), "tails": tails.len()}));
 }
 
-const TEXT_ALPHABET: &[&str] = &["a", "d", "e", "h", "1", "2", "3", "4", "5", "6", "7", "8", "9", "0", "/", " ", "-", "w", "b", "K", "Q", "k", "q", "p", "P", "r", "R", "n", "N", "B", "x", "é", "€", "😀", "W", "\t", "+", ".", "o", "Z"];
+const TEXT_ALPHABET: &[&str] = &["a", "d", "e", "h", "1", "2", "3", "4", "5", "6", "7", "8", "9", "0", "/", " ", "-", "w", "b", "K", "Q", "k", "q", "p", "P", "r", "R", "n", "N", "B", "x", "é", "€", "😀", "W", "\t", "+", ".", "o", "Z", "\n", "\u{170}", "\u{14b}", "\u{138}", "\u{12f}", "\u{177}", "\u{12d}", "\u{120}"];
 
 fn edits(s: &str, f: &mut dyn FnMut(&str) -> bool) -> bool {
     let chars: Vec<char> = s.chars().collect();
@@ -636,7 +636,7 @@ impl PosOracle for C07Universe {
     }
 }
 
-pub const RULE: &str = "text: (i) the complete product placement(~200: valid ones, ranks not summing to 8, digit runs that wrap the file counter, 7 and 9 ranks, empty, stray letters, multi-byte characters) x side(7) x castling(14) x en passant(27) x tail(4); (ii) the complete 1-edit ball (insert / delete / substitute at every index, 40-symbol alphabet incl. tab and 2/3/4-byte characters) of ~50 seed FENs (thorough: the 2-edit ball of 3 short seeds); (iii) every string of length <= 3 (thorough 4). builder: EVERY builder state with <= 2 men (thorough 3) of any kind and colour on any squares (0-3 kings of a colour, pawns on the back ranks included) x both sides to move x a rights alphabet x an en-passant-file alphabet; structured builder families: (a) both kings anywhere (adjacent included) plus one man of any of the 12 kinds anywhere x side x rights x en-passant file; (b) castling-right backing: kings on/off home x every corner empty / own rook / own bishop / enemy rook x all 16 rights sets; (c) en-passant shape: a pawn of either colour or none on file f of rank 4/5 and on each neighbour file, passed-over square empty or occupied, every en-passant file; crowded boards: for 6 square patterns x 5 kinds x 2 colours, n = 0..|pattern| men of one colour laid down in pattern order, the enemy king on every free square, that colour to move; the standard position universes (every reference-valid position must be accepted from the builder and from its standard FEN). Oracle: (1) no panic / abort; (2) accepted => one king each, side not to move not attacked, rights backed by king and rook at home, en_passant() names an enemy pawn on its double-push rank; (3) reference-valid => accepted; between (2) and (3) either answer; (4) every accepted board: full move generation, len, status, rendering, null move, hash, make_move_new and make_move of every generated move, inside catch_unwind in the debug-assertion build. distinct_nontrivial = accepted inputs (each is exercised)";
+pub const RULE: &str = "text: (i) the complete product placement(~200: valid ones, ranks not summing to 8, digit runs that wrap the file counter, 7 and 9 ranks, empty, stray letters, multi-byte characters) x side(7) x castling(14) x en passant(27) x tail(4); (ii) the complete 1-edit ball (insert / delete / substitute at every index, 48-symbol alphabet incl. tab, LF, 2/3/4-byte characters and 2-byte characters whose low byte equals p, K, 8, /, w, -, space) of ~50 seed FENs (thorough: the 2-edit ball of 3 short seeds); (iii) every string of length <= 3 (thorough 4). builder: EVERY builder state with <= 2 men (thorough 3) of any kind and colour on any squares (0-3 kings of a colour, pawns on the back ranks included) x both sides to move x a rights alphabet x an en-passant-file alphabet; structured builder families: (a) both kings anywhere (adjacent included) plus one man of any of the 12 kinds anywhere x side x rights x en-passant file; (b) castling-right backing: kings on/off home x every corner empty / own rook / own bishop / enemy rook x all 16 rights sets; (c) en-passant shape: a pawn of either colour or none on file f of rank 4/5 and on each neighbour file, passed-over square empty or occupied, every en-passant file; crowded boards: for 6 square patterns x 5 kinds x 2 colours, n = 0..|pattern| men of one colour laid down in pattern order, the enemy king on every free square, that colour to move; the standard position universes (every reference-valid position must be accepted from the builder and from its standard FEN). Oracle: (1) no panic / abort; (2) accepted => one king each, side not to move not attacked, rights backed by king and rook at home, en_passant() names an enemy pawn on its double-push rank; (3) reference-valid => accepted; between (2) and (3) either answer; (4) every accepted board: full move generation, len, status, rendering, null move, hash, make_move_new and make_move of every generated move, inside catch_unwind in the debug-assertion build. distinct_nontrivial = accepted inputs (each is exercised)";
 
 pub fn run(tier: Tier) -> i32 {
     let run = Arc::new(Run::new("C07", tier, COUNTERS));
